@@ -215,7 +215,26 @@ def compare(kind, spec, expr, sides):
             safe, tight = c <= 0, c >= 0
         else:
             safe, tight = c >= 0, c <= 0
-        return [('order', safe, tight, 'bound is reference %+g (reference `%s`)' % (float(c), spec[1]))]
+        # int()/floor()/ceil() around the bound are erased by the normal form; for a fractional threshold they move the
+        # bound: truncation loosens a lower bound, ceil loosens an upper bound (sizes are integers, so the other
+        # direction is exact)
+        rounders = set()
+        for x in ast.walk(expr):
+            if isinstance(x, ast.Call) and isinstance(x.func, (ast.Name, ast.Attribute)) and len(x.args) == 1 \
+                    and any(isinstance(y, ast.Name) and y.id == 'threshold' for y in ast.walk(x.args[0])):
+                nm = x.func.id if isinstance(x.func, ast.Name) else x.func.attr
+                if nm in ('int', 'floor', 'trunc'):
+                    rounders.add('down')
+                if nm == 'ceil':
+                    rounders.add('up')
+        note = ''
+        if kind == 'lower' and 'down' in rounders:
+            tight = False
+            note = '; truncated: for a fractional threshold the lower bound is up to one too small'
+        if kind != 'lower' and 'up' in rounders:
+            tight = False
+            note = '; rounded up: for a fractional threshold the upper bound is up to one too large'
+        return [('order', safe, tight, 'bound is reference %+g (reference `%s`)%s' % (float(c), spec[1], note))]
     if spec[0] == 'minmax':
         _, fname, a_src, b_src = spec
         ref = norm.visit(parse_expr('%s(%s, %s)' % (fname, a_src, b_src)))
